@@ -10,6 +10,7 @@ import (
 	"os"
 	"strconv"
 	"strings"
+	"unicode"
 	"unicode/utf8"
 
 	"github.com/charlievieth/strcase"
@@ -342,6 +343,7 @@ func init() {
 		x.bytesFor(ill, 20000*x.scale)
 		x.anyFor(ill, 20000*x.scale)
 		x.nonASCIIFor(3000 * x.scale)
+		x.strayAll()
 		x.exhaustiveSmall(allSS, []string{"a", "K", "\xff", "\x80", "�", "\xe4\xb8", "世", "\xc3", "ſ", "\xed\xa0\x80", "\xf0\x90"}, 3, 2)
 		relC06(x)
 		x.guardedAPI()
@@ -354,6 +356,7 @@ func init() {
 		x.bytesFor(both, 20000*x.scale)
 		x.anyFor(both, 20000*x.scale)
 		x.nonASCIIFor(3000 * x.scale)
+		x.strayAll()
 		relC07(x)
 	}
 	props["C08"] = func(x *Ctx) {
@@ -386,6 +389,12 @@ func init() {
 		}
 		x.everyCodePoint()
 		x.orbitPairs()
+		x.strayTails(func(s []byte, r rune) {
+			for _, q := range []rune{r, unicode.SimpleFold(r)} {
+				x.eval(&Case{Fn: "IndexRune", S: s, R: int64(q)}, false)
+				x.eval(&Case{Fn: "ContainsRune", S: s, R: int64(q)}, false)
+			}
+		})
 		x.straddle(func(s []byte, have, want rune) {
 			x.eval(&Case{Fn: "IndexRune", S: s, R: int64(want)}, false)
 			x.eval(&Case{Fn: "ContainsRune", S: s, R: int64(want)}, false)
@@ -409,6 +418,7 @@ func init() {
 		x.anyFor(both, 150000*x.scale)
 		x.anyGrid()
 		x.anyCaseBit()
+		x.strayTailsSS([]string{"IndexAny", "LastIndexAny"})
 		x.siblingDecoys([]string{"IndexAny", "LastIndexAny"})
 		x.straddleSS([]string{"IndexAny", "LastIndexAny"})
 		x.orbitPairsSS([]string{"IndexAny", "LastIndexAny"})
@@ -437,6 +447,7 @@ func init() {
 		x.runesFor(ill, 15000*x.scale)
 		x.bytesFor(ill, 15000*x.scale)
 		x.anyFor(ill, 15000*x.scale)
+		x.strayAll()
 		x.exhaustiveSmall(allSS, []string{"a", "k", "K", "\xff", "\x80", "�", "\xe4\xb8", "世", "\xc3", "ſ"}, 3, 2)
 		relC15(x)
 	}
@@ -894,6 +905,86 @@ func (x *Ctx) straddle(cb func(s []byte, have, want rune)) {
 			}
 		}
 	}
+}
+
+// strayTails: ill-formed haystacks in which a complete code point stands next to stray copies of its OWN bytes
+// (its last byte repeated after it, its lead byte or a proper prefix of its encoding right in front of it, a
+// proper suffix right behind it) — the shapes on which a byte-wise scan that "knows" how UTF-8 continues skips
+// the real occurrence; code points with repeated bytes in their encoding (U+9104 e9 84 84, U+2000, U+FFFF,
+// U+10000, U+10FFFF, U+20820) make the stray copy indistinguishable from the real byte
+func (x *Ctx) strayTails(cb func(s []byte, r rune)) {
+	rs := []rune{'é', 'Á', 'я', 'ß', 0x80, 0x7ff, 0x800, '世', '鄄', 0x2000, 0x2028, 0xFFFF, 0xFFFD, 'K', 'ẞ', 'ⱥ',
+		'😀', 0x10000, 0x10FFFF, 0x20820, 0x1F640, 0xE0041, 0x10428}
+	n := 0
+	for _, r := range rs {
+		e := []byte(string(r))
+		w := len(e)
+		var mids [][]byte
+		for k := 1; k <= 4; k++ { // the last byte (and every other byte) of the encoding, k times, behind the code point
+			for j := 0; j < w; j++ {
+				mids = append(mids, append(append([]byte{}, e...), bytes.Repeat(e[j:j+1], k)...))
+			}
+		}
+		for j := 1; j < w; j++ {
+			mids = append(mids, append(append([]byte{}, e[:j]...), e...))                   // proper prefix, then the code point
+			mids = append(mids, append(append([]byte{}, e...), e[j:]...))                   // the code point, then a proper suffix
+			mids = append(mids, append(append(append([]byte{}, e[:j]...), e[:j]...), e...)) // the prefix twice
+			mids = append(mids, append(append(append([]byte{}, e...), e[j:]...), e[:j]...)) // suffix then prefix
+			mids = append(mids, append(append(append([]byte{}, e...), e[w-1]), e...))       // two occurrences around a stray byte
+		}
+		for _, m := range mids {
+			for _, pre := range []string{"", "x", "0123456789abcdefghij", string(r) + " "} {
+				for _, post := range []string{"", " tail", "\x80"} {
+					s := append(append([]byte(pre), m...), post...)
+					cb(s, r)
+					n++
+				}
+			}
+		}
+		// decoys that share the last byte, enough of them for a byte scan to give up, then the stray shape
+		var sib rune = -1
+		for _, q := range siblings(r) {
+			if q != r && utf8.RuneLen(q) == w && []byte(string(q))[w-1] == e[w-1] {
+				sib = q
+				break
+			}
+		}
+		if sib >= 0 && w > 1 {
+			for _, k := range []int{3, 4, 5, 8, 20} {
+				for j := 1; j < w; j++ {
+					s := bytes.Repeat([]byte(string(sib)), k)
+					s = append(append(s, e[:j]...), e...)
+					cb(s, r)
+					cb(append(s, " tail"...), r)
+					n += 2
+				}
+			}
+		}
+	}
+	x.note("stray copies of a code point's own bytes: %d haystacks", n)
+}
+
+// strayAll: the stray-byte haystacks through every search function (string, rune and character-set needles)
+func (x *Ctx) strayAll() {
+	x.strayTailsSS(allSS)
+	x.strayTails(func(s []byte, r rune) {
+		for _, q := range []rune{r, unicode.SimpleFold(r)} {
+			x.eval(&Case{Fn: "IndexRune", S: s, R: int64(q)}, false)
+			x.eval(&Case{Fn: "ContainsRune", S: s, R: int64(q)}, false)
+			x.eval(&Case{Fn: "IndexAny", S: s, T: []byte(string(q))}, false)
+			x.eval(&Case{Fn: "LastIndexAny", S: s, T: []byte(string(q))}, false)
+			x.eval(&Case{Fn: "ContainsAny", S: s, T: []byte(string(q) + "#")}, false)
+		}
+	})
+}
+
+func (x *Ctx) strayTailsSS(fns []string) {
+	x.strayTails(func(s []byte, r rune) {
+		for _, fn := range fns {
+			x.eval(&Case{Fn: fn, S: s, T: []byte(string(r))}, false)
+			x.eval(&Case{Fn: fn, S: s, T: []byte(string(unicode.SimpleFold(r)))}, false)
+		}
+	})
 }
 
 // fffdBait: a literal U+FFFD in one argument opposite a multi-byte code point in the other, behind (or in
